@@ -23,7 +23,8 @@ type agg struct {
 	nontrivial    int64
 	sigs          map[string]bool
 	inconclusive  map[string]int64
-	steps, simNS  int64
+	steps         int64
+	simS          float64
 	decisions     int64
 	preemptions   int64
 	fs            map[string]int64
@@ -57,7 +58,7 @@ func (a *agg) add(o *Outcome) {
 		a.nontrivial++
 	}
 	a.steps += o.Steps
-	a.simNS += o.SimNS
+	a.simS += float64(o.SimNS) / 1e9
 	a.decisions += o.SchedDecisions
 	a.preemptions += o.Preemptions
 	a.cases += o.Cases
@@ -223,7 +224,7 @@ func driverMain(args []string) {
 	}
 	writeEvidence(*evidence, *prop, *tier, *seed, a, exploreWall, time.Since(t0).Seconds(), nViol, vsum)
 	fmt.Printf("%s %s: worlds=%d nontrivial-distinct=%d steps=%d sim=%s inconclusive=%v wall=%.1fs\n", *prop, *tier, a.worlds, a.nontrivial, a.steps,
-		time.Duration(a.simNS), a.inconclusive, time.Since(t0).Seconds())
+		fmt.Sprintf("%.0fs", a.simS), a.inconclusive, time.Since(t0).Seconds())
 	for _, l := range lines {
 		fmt.Println(l)
 	}
@@ -391,7 +392,7 @@ func writeEvidence(path, prop, tier string, seed uint64, a *agg, exploreWall, wa
 		"scheduler_steps":      a.steps,
 		"scheduling_decisions_with_choice": a.decisions,
 		"preemptions":          a.preemptions,
-		"simulated_time_s":     float64(a.simNS) / 1e9,
+		"simulated_time_s":     a.simS,
 		"distinct_schedule_and_plan_signatures": len(a.sigs),
 		"max_tasks_in_a_world": a.maxTasks,
 		"fs_events_by_kind":    a.fs,
